@@ -496,6 +496,8 @@ def line_tags(source, diags, sites=()):
             t.append("naked-left")
         if untyped_left is not None and untyped_left.search(text) and not text.startswith("var "):
             t.append("untyped-left")
+        if erased and re.match(r"var (%s) = " % "|".join(erased), text):
+            t.append("erased-decl")      # E581 at the declaration of a variable whose only uses are untyped-left ones
         if " as " in text:
             t.append("cast")
         tags.add("E%d[%s]" % (code, "+".join(t) or "other"))
